@@ -265,6 +265,27 @@ theorem header_once (d : Document) (o : Opts) (vc : Bool) (script : List Line)
   simp only [List.filter_append, List.filter_cons, hinc, if_true, List.map_append, List.map_cons, List.sum_append, List.sum_cons,
     hz pre (fun s hs => hothers s (List.mem_append_left _ hs)), hz post (fun s hs => hothers s (List.mem_append_right _ hs)), hself]
 
+/-- **the header `.<segment>` occurs once in the main script of partial mode** under the same conditions. -/
+theorem header_once_partial (d : Document) (o : Opts) (vc : Bool) (out : PartialOut) (h : generatePartial d o vc = .ok out)
+    (folder : Str) (hfolder : d.settings.partialBuildSegmentsFolder = some folder)
+    (pre post : List Segment) (seg : Segment) (hsplit : partialSegs d o folder = pre ++ seg :: post)
+    (hothers : ∀ s ∈ pre ++ post, segHdrs s (c!"." ++ seg.name) = 0)
+    (ha : c!"." ++ seg.name ∉ d.settings.sectionsAllowlist) (he : c!"." ++ seg.name ∉ d.settings.sectionsAllowlistExtra) :
+    hdrCount (c!"." ++ seg.name) out.main = 1 := by
+  have hself : segHdrs seg (c!"." ++ seg.name) = 1 := by
+    unfold segHdrs
+    simp [noload_name_ne seg.name]
+  rw [hdrCount_main_partial d o vc out h folder hfolder, hsplit, List.count_eq_zero.2 ha, List.count_eq_zero.2 he]
+  generalize c!"." ++ seg.name = n at *
+  have hz : ∀ l : List Segment, (∀ s ∈ l, segHdrs s n = 0) → (l.map fun s => segHdrs s n).sum = 0 := by
+    intro l hl
+    induction l with
+    | nil => rfl
+    | cons x xs ih =>
+      simp only [List.map_cons, List.sum_cons, hl x List.mem_cons_self, ih (fun s hs => hl s (List.mem_cons_of_mem _ hs))]
+  simp only [List.map_append, List.map_cons, List.sum_append, List.sum_cons,
+    hz pre (fun s hs => hothers s (List.mem_append_left _ hs)), hz post (fun s hs => hothers s (List.mem_append_right _ hs)), hself]
+
 /-- `final_vram_start` with the hypothesis on the header stated about the document: no other emitted segment has an
 output section called `.<segment>` and neither allowlist names it. -/
 theorem final_vram_start_doc (objs : List InSec) (d : Document) (o : Opts) (vc : Bool) (script : List Line)
